@@ -65,10 +65,17 @@ private:
         {
             m_max_search_space_size = m_matrix_operator.cols();
         }
-        if (m_matrix_operator.cols() < m_initial_search_space_size + m_correction_size)
+        if (m_matrix_operator.cols() < m_initial_search_space_size + m_correction_size ||
+            m_initial_search_space_size < m_number_eigenvalues)
         {
-            m_initial_search_space_size = m_matrix_operator.cols() / 3;
-            m_correction_size = m_matrix_operator.cols() / 3;
+            // The search space must hold at least nev Ritz pairs in every iteration,
+            // and at least one correction vector has to be added to it
+            m_initial_search_space_size = (std::max)(m_matrix_operator.cols() / 3, m_number_eigenvalues);
+            m_correction_size = (std::max)(Index(1), (std::min)(m_matrix_operator.cols() / 3, m_matrix_operator.cols() - m_initial_search_space_size));
+        }
+        if (m_max_search_space_size < m_initial_search_space_size)
+        {
+            m_max_search_space_size = m_initial_search_space_size;
         }
     }
 
